@@ -785,8 +785,10 @@ def find_predicates(dm: DocumentModel):
                     elif any(c == "text" for c in body_calls):
                         role = "toctree"
                 if isinstance(a, (ast.ListComp, ast.GeneratorExp)):
-                    # comprehension feeding a loop that emits toctree entries
+                    # comprehension feeding (possibly through sorted()/list()) a loop that emits toctree entries
                     up = dm.parents.get(a)
+                    while isinstance(up, ast.Call) and call_name(up) in ("sorted", "list", "tuple", "reversed"):
+                        up = dm.parents.get(up)
                     if isinstance(up, ast.For) and any(call_name(c).endswith(".text") for st in up.body for c in calls_in(st)):
                         role = "toctree"
             out.append((role, p, n))
@@ -827,8 +829,8 @@ def rule_predicates_agree(rep: Report, repo: Repo, rule: str) -> None:
 
 def rule_same_source(rep: Report, repo: Repo, rule: str) -> None:
     """C14-R1: toctree entries and page production iterate the same filtered, sorted list."""
-    rep.rule(rule, "toctree file entries and page production iterate the same filtered+sorted file list; subdirectory "
-                   "entries iterate the pruned directory list; both lists are sorted before use")
+    rep.rule(rule, "toctree file entries and page production iterate the same exclusion-filtered file list; subdirectory "
+                   "entries iterate the pruned directory list, only under `recursive`; nothing is re-read from disk")
     dm = DocumentModel(repo)
     where = f"{MOD}:document"
     w = dm.walk
@@ -836,7 +838,8 @@ def rule_same_source(rep: Report, repo: Repo, rule: str) -> None:
     sort_idx: Dict[str, int] = {}
     for i, st in enumerate(w.body):
         if isinstance(st, ast.Assign) and isinstance(st.value, ast.Call) and call_name(st.value) == "sorted" \
-                and isinstance(st.targets[0], ast.Name) and st.value.args and norm(st.value.args[0]) == st.targets[0].id:
+                and isinstance(st.targets[0], ast.Name) and st.value.args and norm(st.value.args[0]) == st.targets[0].id \
+                and not any(k.arg == "key" for k in st.value.keywords):
             sort_idx[st.targets[0].id] = i
         if isinstance(st, ast.Expr) and isinstance(st.value, ast.Call) and isinstance(st.value.func, ast.Attribute) \
                 and st.value.func.attr == "sort":
@@ -869,14 +872,7 @@ def rule_same_source(rep: Report, repo: Repo, rule: str) -> None:
               f"pages are produced from `{iter_base(page_loop)}`, not from `{dm.files_var}`")
     rep.check(bool(dir_toc), rule, where, "toctree directory entries iterate the walk's directory list",
               f"toctree directory entries do not come from `{dm.dirs_var}`")
-    # sorted before use
-    for var, loops in ((dm.files_var, file_toc + [page_loop]), (dm.dirs_var, dir_toc)):
-        for l in loops:
-            i = dm.walk_body_index(l)
-            inline_sorted = isinstance(l.iter, ast.Call) and call_name(l.iter) == "sorted"
-            rep.check(inline_sorted or (var in sort_idx and sort_idx[var] < i), rule, where,
-                      f"`{var}` sorted before `for {norm(l.target)} in {norm(l.iter)[:40]}`",
-                      f"`{var}` is consumed in listing order", witness="readdir order differs between file systems")
+    # (whether the lists are sorted before use is a determinism question: judged by C17-R2 / C18-R6, not here)
     # no re-listing: the lists are not re-read from disk between filter and use
     for l in toc_loops + [page_loop]:
         txt = norm(l.iter)
@@ -889,7 +885,7 @@ def rule_same_source(rep: Report, repo: Repo, rule: str) -> None:
         rep.check(ok, rule, where, "subdirectory toctree entries guarded by `recursive`",
                   "subdirectory index entries are emitted in non-recursive mode, where no sub index is written",
                   witness="cminx -o out dir-with-subdirs   (without -r)")
-    rep.floor(rule, 7, "toctree/page source facts")
+    rep.floor(rule, 5, "toctree/page source facts")
 
 
 def rule_prechecks_filtered(rep: Report, repo: Repo, rule: str) -> None:
@@ -1193,3 +1189,77 @@ def _writes_through_param_local(fn, p: str, scope) -> List[str]:
 
 def _writes_through_param(repo: Repo, mod: str, q: str, fn, p: str) -> List[str]:
     return _writes_through_param_local(fn, p, repo.module(mod).tree)
+
+
+# ----------------------------------------------------------------------
+def classify_stem(e: ast.expr):
+    """Recognise 'file name without its extension' expressions.
+    Returns (kind, subject text) with kind in JOINSPLIT / RSPLIT1 / SPLITEXT / RESUB-ci / RESUB-cs / REMOVESUFFIX / SLICE."""
+    # ".".join(X.split(".")[:-1])
+    if isinstance(e, ast.Call) and isinstance(e.func, ast.Attribute) and e.func.attr == "join" and isinstance(e.func.value, ast.Constant) \
+            and e.func.value.value == "." and len(e.args) == 1 and isinstance(e.args[0], ast.Subscript):
+        sub = e.args[0]
+        if isinstance(sub.slice, ast.Slice) and sub.slice.lower is None and norm(sub.slice.upper) == "-1" \
+                and isinstance(sub.value, ast.Call) and isinstance(sub.value.func, ast.Attribute) and sub.value.func.attr == "split" \
+                and sub.value.args and isinstance(sub.value.args[0], ast.Constant) and sub.value.args[0].value == "." and len(sub.value.args) == 1:
+            return "JOINSPLIT", norm(sub.value.func.value)
+    # X.rsplit(".", 1)[0]
+    if isinstance(e, ast.Subscript) and norm(e.slice) == "0" and isinstance(e.value, ast.Call) and isinstance(e.value.func, ast.Attribute):
+        c = e.value
+        if c.func.attr == "rsplit" and len(c.args) == 2 and norm(c.args[0]) == "'.'" and norm(c.args[1]) == "1":
+            return "RSPLIT1", norm(c.func.value)
+        if c.func.attr in ("rsplit", "split") and len(c.args) == 1 and norm(c.args[0]) == "'.'":
+            return "FIRSTDOT", norm(c.func.value)
+        if call_name(c) == "os.path.splitext" and c.args:
+            return "SPLITEXT", norm(c.args[0])
+    if isinstance(e, ast.Call) and call_name(e) == "re.sub" and len(e.args) >= 3 and isinstance(e.args[0], ast.Constant):
+        pat = str(e.args[0].value)
+        flags = " ".join(norm(a) for a in e.args[3:]) + " ".join(norm(k.value) for k in e.keywords)
+        ci = "re.I" in flags or "IGNORECASE" in flags or pat.startswith("(?i)")
+        anchored = pat.endswith("$") or pat.endswith("\\Z")
+        if "cmake" in pat.lower():
+            return ("RESUB-ci" if ci else "RESUB-cs") + ("" if anchored else "-unanchored"), norm(e.args[2])
+    if isinstance(e, ast.Call) and isinstance(e.func, ast.Attribute) and e.func.attr == "removesuffix" and e.args:
+        return "REMOVESUFFIX-cs", norm(e.func.value)
+    if isinstance(e, ast.Subscript) and isinstance(e.slice, ast.Slice) and e.slice.lower is None and e.slice.upper is not None:
+        u = norm(e.slice.upper)
+        if u in ("-6", "-len('.cmake')", '-len(".cmake")'):
+            return "SLICE6", norm(e.value)
+    return None
+
+
+STEM_EQUIV = {"JOINSPLIT": "lastdot", "RSPLIT1": "lastdot", "SPLITEXT": "lastdot", "RESUB-ci": "suffix-ci", "SLICE6": "suffix-ci",
+              "RESUB-cs": "suffix-cs", "REMOVESUFFIX-cs": "suffix-cs", "FIRSTDOT": "firstdot"}
+
+
+def rule_stem_agreement(rep: Report, repo: Repo, rule: str) -> None:
+    """C14-R1s: a toctree file entry names exactly the page that is written for that file."""
+    rep.rule(rule, "the toctree entry of a file and the name of the page written for it are the same function of the file name "
+                   "(both 'everything before the last dot', or both a case-insensitive '.cmake' suffix removal)")
+    dm = DocumentModel(repo)
+    toc = []
+    for n in walk_no_nested(dm.walk):
+        if isinstance(n, ast.For) and n is not dm.walk and dm.dirs_var not in norm(n.iter):
+            for st in n.body:
+                for c in calls_in(st):
+                    if isinstance(c.func, ast.Attribute) and c.func.attr == "text" and c.args:
+                        k = classify_stem(c.args[0])
+                        toc.append((k, norm(c.args[0])))
+    pages = []
+    for n in walk_no_nested(dm.single):
+        if isinstance(n, ast.BinOp) and isinstance(n.op, ast.Add) and isinstance(n.right, ast.Constant) and n.right.value == ".rst":
+            pages.append((classify_stem(n.left), norm(n.left)))
+    if not toc or not pages:
+        raise AnalysisError("anchor vanished: toctree file entry or page file name expression not found")
+    where = f"{MOD}:document / document_single_file"
+    for tk, ttxt in toc:
+        for pk, ptxt in pages:
+            if tk is None or pk is None:
+                raise AnalysisError(f"unrecognised stem computation: toctree `{ttxt[:50]}` / page `{ptxt[:50]}`")
+            a, b = STEM_EQUIV.get(tk[0], tk[0]), STEM_EQUIV.get(pk[0], pk[0])
+            ok = a == b or {a, b} == {"lastdot", "suffix-ci"}
+            rep.check(ok, rule, where, f"toctree {tk[0]}({tk[1]}) vs page {pk[0]}({pk[1]})",
+                      f"the toctree lists `{ttxt[:60]}` but the page is named by `{ptxt[:60]}`: for some processed file the entry has no "
+                      f"generated target (and the page is unreachable)",
+                      witness="Toolchain.CMake (mixed-case extension) or a.b.cmake (dot in the name)")
+    rep.floor(rule, 2, "stem computations")
